@@ -45,7 +45,7 @@ func (c Precision) String() string {
 }
 
 func (c Precision) Validate(value bytes.Bytes) {
-	n, err := json.NewNumber(value)
+	n, err := json.ParseNumber(value)
 	if err != nil {
 		panic(err)
 	}
